@@ -79,7 +79,9 @@ def check_C12(run):
                "f:9007199254740993", "f:(9007199254740993 OR 2)", "f:x~0", "f:x~1", "f:x~5", "f:x^1", "f:x^0.5", "f:x^3", "\"\"", "f:\"\"", "f:\" \"", "f:a\\*b", "f:\"/x/\"", "f:\"/\"",
                "f:/a b/", "f:[\"a b\" TO \"c*\"]", "f:(\"a*\" OR b)", "f:\u00e9t\u00e9", "\u5b57:\u5b57*",
                # regexps whose body ends in escaped characters (the closing slash is or is not escaped)
-               "f:/ab\\\\/", "f:/a\\/b/", "f:/\\\\/", "/ab\\\\/ AND x", "f:/a*\\\\/", "f:/a\\\\\\/b/", "f:/a\\/", "NOT f:/x\\\\/"]
+               "f:/ab\\\\/", "f:/a\\/b/", "f:/\\\\/", "/ab\\\\/ AND x", "f:/a*\\\\/", "f:/a\\\\\\/b/", "f:/a\\/", "NOT f:/x\\\\/",
+               # a quoted star as a range bound (a value, and a WILD after decoding); floats beyond int64 as bounds
+               "f:[\"*\" TO 5]", "f:[1 TO \"*\"]", "f:{\"*\" TO \"*\"}", "f:[1e19 TO *]", "f:[-1e19 TO 1e19]", "f:[* TO 18446744073709551616]", "f:1e19"]
     res, _, _ = stage_texts(run, special, name="special_texts", with_json=True)
     stage_judge_enum(run, res, "C12", name="judge_special")
     run.exhaustive = True
